@@ -5,7 +5,7 @@ ROOT = os.path.dirname(os.path.dirname(os.path.abspath(__file__)))
 p = os.path.join(ROOT, 'DESIGN.md')
 s = open(p).read()
 rows = []
-n = {r: 0 for r in range(1, 11)}; missed = {r: 0 for r in range(1, 11)}
+n = {r: 0 for r in range(1, 12)}; missed = {r: 0 for r in range(1, 12)}
 for f in sorted(glob.glob(os.path.join(ROOT, 'seeded/*/meta.json'))):
     m = json.load(open(f))
     rnd = m.get('round', 1)
